@@ -309,6 +309,24 @@ func propRegistry() map[string]PropSpec {
 	})
 
 	add(PropSpec{
+		ID: "C19",
+		Harnesses: []HarnessSpec{
+			{Pkg: "upstream", Fn: "Harness_C19_pick", Init: []string{"util", "upstream"}, Reach: []string{"C19.none-healthy", "C19.picked"}, EngineOnly: true},
+			{Pkg: "upstream", Fn: "Harness_C19_roundrobin", Init: []string{"util", "upstream"}, Reach: []string{"C19.rr.end", "C19.rr.none"}, EngineOnly: true},
+			{Pkg: "upstream", Fn: "Harness_C19_reset", Init: []string{"util", "upstream"}, Reach: []string{"C19.reset.end"}, EngineOnly: true},
+		},
+		Explanation: "Partial: symbolic execution of pike's NewUpstreamServer wiring and newTargetPicker together with the real source of vicanso/upstream's selection code (Add/AddBackup, Next, the four policies, GetAvailableUpstream, the primary/backup split), with 1-3 servers, each primary or backup, each health status (healthy / sick / ignored) chosen by the solver, and every policy name. The picker returns only healthy servers, a backup only when no primary is healthy, and the 503 error exactly when nothing is healthy; under round robin 7 sequential requests are shared so that counts differ by at most one; after a reload the group registered under a name is the new one with its health checker running and replaced/removed groups are stopped.",
+		Assumptions: []string{
+			"the health checker (TCP dial, HTTP ping, 5 s ticker, fail counters) is a stub that sets arbitrary statuses: 'promptly', 'settle time' and that traffic resumes by itself are only covered in the sense that the next pick after a status change sees it",
+			"the reverse-proxy middleware and transports (elton/middleware, net/http, h2c) are not encodable; newProxyMid is stubbed",
+			"round-robin evenness within a window that does not cross the uint32 wrap of the dependency's counter (the counter starts at 0 in the harness)",
+			"url.Parse returns an opaque URL per address; math/rand.Uint32 is an arbitrary value",
+		},
+		Encoded: []string{"upstream.NewUpstreamServer", "upstream.newTargetPicker", "upstream.NewUpstreamServers", "upstream.(*upstreamServers).Reset", "upstream.(*upstreamServers).Get", "upstream.(*upstreamServer).Destroy"},
+		Bounds:  map[string]string{"servers": "1..3 (2..3 for round robin)", "statuses": "all combinations (symbolic)", "policies": "first, random, roundRobin, leastconn, unset", "round-robin window": "7 calls"},
+	})
+
+	add(PropSpec{
 		ID: "C18",
 		Harnesses: []HarnessSpec{
 			{Pkg: "cache", Fn: "Harness_C18_purge", Init: initCache, Reach: []string{"C18.named", "C18.unnamed", "C18.absent-cache", "C18.absent-key"}},
